@@ -20,6 +20,7 @@ use serde_json::json;
 
 pub fn run_case(ctx: &Ctx, case: u64, ev: &mut Ev) {
     let mut rng = Rng::derive(ctx.seed, "C18", case);
+    rng.big = ctx.tier == crate::Tier::Thorough && rng.chance(0.2);
     if rng.chance(0.75) {
         run_arch(case, &mut rng, ev);
     } else {
@@ -49,7 +50,7 @@ fn run_arch(case: u64, rng: &mut Rng, ev: &mut Ev) {
     let mut invalid = 0;
     let mut neurons = 0;
     let mut had_argmax = false;
-    let n_calls = 1 + rng.below(9);
+    let n_calls = 1 + rng.below(if rng.big { 14 } else { 9 });
     macro_rules! fail {
         ($sig:expr, $msg:expr) => {{
             ev.violation(case, $sig, "", json!({"in_dim": in_dim, "calls": calls, "problem": $msg}));
@@ -58,7 +59,7 @@ fn run_arch(case: u64, rng: &mut Rng, ev: &mut Ev) {
         }};
     }
     for _ in 0..n_calls {
-        if neurons >= 6 {
+        if neurons >= if rng.big { 8 } else { 6 } {
             break;
         }
         let r = rng.below(100);
